@@ -154,26 +154,29 @@ fn main() {
     };
     let strict = std::env::var("VERIF_STRICT").is_ok();
     let ctx = Ctx::new(p.id, p.level, tier, seed, strict);
-    // regression replays first
-    let dir = format!("{}/regress/{}", hcverif::runner::verif_dir(), p.id);
-    if let Ok(rd) = std::fs::read_dir(&dir) {
-        let mut files: Vec<_> = rd.filter_map(|e| e.ok()).map(|e| e.path()).filter(|p| p.extension().map(|x| x == "json").unwrap_or(false)).collect();
-        files.sort();
-        let mut n = 0;
-        for f in files {
-            let txt = std::fs::read_to_string(&f).expect("read regress file");
-            let v: Value = serde_json::from_str(&txt).expect("parse regress file");
-            let case = v.get("case").cloned().unwrap_or(v.clone());
-            n += 1;
-            if let Err(fail) = (p.replay)(&case) {
-                if !ctx.is_known(&fail) {
-                    ctx.report_failure(fail, case, &format!("regress:{}", f.display()));
+    ctx.with_watchdog(|| {
+        // regression replays first
+        let dir = format!("{}/regress/{}", hcverif::runner::verif_dir(), p.id);
+        if let Ok(rd) = std::fs::read_dir(&dir) {
+            let mut files: Vec<_> = rd.filter_map(|e| e.ok()).map(|e| e.path()).filter(|p| p.extension().map(|x| x == "json").unwrap_or(false)).collect();
+            files.sort();
+            let mut n = 0;
+            for f in files {
+                let txt = std::fs::read_to_string(&f).expect("read regress file");
+                let v: Value = serde_json::from_str(&txt).expect("parse regress file");
+                let case = v.get("case").cloned().unwrap_or(v.clone());
+                n += 1;
+                ctx.slot_begin(0, "regress", || case.to_string());
+                let r = (p.replay)(&case);
+                ctx.slot_end(0);
+                if let Err(fail) = r {
+                    if !ctx.is_known(&fail) {
+                        ctx.report_failure(fail, case, &format!("regress:{}", f.display()));
+                    }
                 }
             }
+            ctx.stage_done("regress", serde_json::json!({"files": n}));
         }
-        ctx.stage_done("regress", serde_json::json!({"files": n}));
-    }
-    ctx.with_watchdog(|| {
         (p.run)(&ctx);
         fuzz_stage(&ctx, p.id);
     });
